@@ -553,3 +553,258 @@ Proof.
     rewrite Z.mod_small; [lia|]. split; [apply Hnn; intros x; pose proof (desc_size_nonneg x); lia|]. change (2 ^ Z.of_nat 12) with 4096. lia.
   - exact Hlen.
 Qed.
+
+(* ================= part B: TLV framing of parseDescriptors ================= *)
+
+(* a parser that never touches the byte slice of the iterator *)
+Definition pres {A} (m : IM A) : Prop := forall i a i', m i = Ok (a, i') -> ibs i' = ibs i.
+Definition body_pres (body : Z -> Z -> Z -> IM Descriptor) : Prop := forall t l e, pres (body t l e).
+(* a body parser that reports the tag and length it was given *)
+Definition body_hdr (body : Z -> Z -> Z -> IM Descriptor) : Prop :=
+  forall t l e i d i', body t l e i = Ok (d, i') -> Descriptor_Tag d = t /\ Descriptor_Length d = l.
+
+Lemma pres_ret {A} (a : A) : pres (iret a).
+Proof. intros i x i' H. inversion H; reflexivity. Qed.
+Lemma pres_err {A} c : pres (@ierr A c). Proof. intros i x i' H. discriminate. Qed.
+Lemma pres_panic {A} : pres (@ipanic A). Proof. intros i x i' H. discriminate. Qed.
+Lemma pres_bind {A B} (m : IM A) (f : A -> IM B) : pres m -> (forall a, pres (f a)) -> pres (ibind m f).
+Proof.
+  intros Hm Hf i b i' H. unfold ibind in H. destruct (m i) as [[a i1]| |] eqn:E; try discriminate.
+  rewrite (Hf a i1 b i' H). apply (Hm i a i1 E).
+Qed.
+Lemma pres_next_byte : pres next_byte.
+Proof. intros i b i' H. apply next_byte_ok in H. tauto. Qed.
+Lemma pres_next_bytes n : pres (next_bytes n).
+Proof. intros i b i' H. apply next_bytes_ok in H. tauto. Qed.
+Lemma pres_next_bytes_nocopy n : pres (next_bytes_nocopy n).
+Proof. apply pres_next_bytes. Qed.
+Lemma pres_ioffset : pres ioffset. Proof. intros i b i' H. inversion H; reflexivity. Qed.
+Lemma pres_iseek n : pres (iseek n). Proof. intros i b i' H. inversion H; reflexivity. Qed.
+Lemma pres_iloop_fuel {A} (item : IM A) e : pres item -> forall k, pres (iloop_fuel k e item).
+Proof.
+  intros Hi k. induction k as [|k IH]; cbn [iloop_fuel]; [apply pres_err|].
+  apply pres_bind; [apply pres_ioffset|]. intros off. destruct (off <? e); [|apply pres_ret].
+  apply pres_bind; [exact Hi|]. intros a. apply pres_bind; [exact IH|]. intros r. apply pres_ret.
+Qed.
+Lemma pres_iloop {A} (item : IM A) e : pres item -> pres (iloop e item).
+Proof. intros Hi. unfold iloop. apply pres_bind; [apply pres_ioffset|]. intros off. apply pres_iloop_fuel. exact Hi. Qed.
+
+Ltac pres_step :=
+  match goal with
+  | |- pres (ibind _ _) => apply pres_bind; [|intros ?]
+  | |- pres (iret _) => apply pres_ret
+  | |- pres (ierr _) => apply pres_err
+  | |- pres ipanic => apply pres_panic
+  | |- pres next_byte => apply pres_next_byte
+  | |- pres (next_bytes _) => apply pres_next_bytes
+  | |- pres (next_bytes_nocopy _) => apply pres_next_bytes_nocopy
+  | |- pres ioffset => apply pres_ioffset
+  | |- pres (iseek _) => apply pres_iseek
+  | |- pres (iloop _ _) => apply pres_iloop
+  | |- pres (if ?c then _ else _) => destruct c
+  | |- pres (match ?l with [] => _ | _ :: _ => _ end) => destruct l
+  end.
+Ltac pres_tac := repeat pres_step.
+
+(* the DVB parsers behind the interface of Model/Dvb.v *)
+Lemma pres_parse_dvb_duration_minutes : pres parse_dvb_duration_minutes.
+Proof. unfold parse_dvb_duration_minutes. pres_tac. Qed.
+Lemma pres_parse_dvb_duration_seconds : pres parse_dvb_duration_seconds.
+Proof. unfold parse_dvb_duration_seconds. pres_tac. Qed.
+Lemma pres_parse_dvb_time : pres parse_dvb_time.
+Proof. unfold parse_dvb_time. pres_tac. apply pres_parse_dvb_duration_seconds. Qed.
+
+Lemma pres_parse_descriptor_body : body_pres parse_descriptor_body.
+Proof.
+  intros t l e. unfold parse_descriptor_body.
+  repeat match goal with |- pres (if ?c then _ else _) => destruct c end;
+  unfold new_descriptor_ac3, new_descriptor_avc_video, new_descriptor_component, new_descriptor_content, content_item,
+    new_descriptor_data_stream_alignment, new_descriptor_enhanced_ac3, new_descriptor_extended_event,
+    new_descriptor_extended_event_item, new_descriptor_extension, new_descriptor_extension_supplementary_audio,
+    new_descriptor_iso639, new_descriptor_local_time_offset, local_time_offset_item, new_descriptor_maximum_bitrate,
+    new_descriptor_network_name, new_descriptor_parental_rating, parental_rating_item, new_descriptor_private_data_indicator,
+    new_descriptor_private_data_specifier, new_descriptor_registration, new_descriptor_service, new_descriptor_short_event,
+    new_descriptor_stream_identifier, new_descriptor_subtitling, subtitling_item, new_descriptor_teletext, teletext_item,
+    new_descriptor_unknown, new_descriptor_vbi_data, vbi_data_service, opt_byte, rest_bytes, bytes_to;
+  pres_tac;
+  first [ apply pres_parse_dvb_duration_minutes | apply pres_parse_dvb_time ].
+Qed.
+
+Lemma hdr_parse_descriptor_body : body_hdr parse_descriptor_body.
+Proof.
+  intros t l e i d i'. unfold parse_descriptor_body.
+  repeat match goal with |- (if ?c then _ else _) _ = _ -> _ => destruct c end;
+  unfold ibind;
+  match goal with |- match ?m i with _ => _ end = _ -> _ => destruct (m i) as [[v i1]| |]; try discriminate end;
+  unfold iret; intros H; inversion H; subst; split; reflexivity.
+Qed.
+
+(* ---- reading the two header bytes ---- *)
+
+Lemma nth_skipn {A} (l : list A) n k d : nth k (skipn n l) d = nth (n + k) l d.
+Proof. revert l. induction n as [|n IH]; intros l; [reflexivity|]. destruct l; [destruct k; reflexivity|]. cbn [skipn]. rewrite IH. reflexivity. Qed.
+
+Lemma next_two bs pos r i' : next_bytes_nocopy 2 (mk_iter bs pos) = Ok (r, i') ->
+  0 <= pos /\ pos + 2 <= zlen bs /\ i' = mk_iter bs (pos + 2) /\
+  byte_at r 0 = byte_of bs pos /\ byte_at r 1 = byte_of bs (pos + 1) /\ length r = 2%nat.
+Proof.
+  intros H. apply next_bytes_ok in H. cbn [ibs ioff] in H. destruct H as (_ & Hp & Hl & Hbs & Hoff & Hr).
+  unfold ilen in Hl; cbn [ibs] in Hl. split; [lia|]. split; [exact Hl|]. split.
+  { destruct i'; cbn in *; subst; reflexivity. }
+  subst r. unfold byte_at, byte_of, slice. replace (pos + 2 - pos) with 2 by lia.
+  assert (Hlen : (2 <= length (skipn (Z.to_nat pos) bs))%nat) by (rewrite skipn_length; unfold zlen in Hl; lia).
+  destruct (skipn (Z.to_nat pos) bs) as [|x [|y l]] eqn:E; cbn [length] in Hlen; try lia.
+  cbn [Z.to_nat Pos.to_nat Pos.iter_op firstn nth length]. 
+  pose proof (nth_skipn bs (Z.to_nat pos) 0 0) as N0. pose proof (nth_skipn bs (Z.to_nat pos) 1 0) as N1.
+  rewrite E in N0, N1. cbn [nth] in N0, N1. rewrite Nat.add_0_r in N0.
+  replace (Z.to_nat (pos + 1)) with (Z.to_nat pos + 1)%nat by lia. auto.
+Qed.
+
+(* ---- one round ---- *)
+
+Lemma parse_descriptor_with_spec body bs pos d i' : body_pres body ->
+  parse_descriptor_with body (mk_iter bs pos) = Ok (d, i') ->
+  0 <= pos /\ pos + 2 <= zlen bs /\ ibs i' = bs /\
+  ((byte_of bs (pos + 1) <= 0 /\ d = desc_hdr (byte_of bs pos) (byte_of bs (pos + 1)) /\ ioff i' = pos + 2) \/
+   (0 < byte_of bs (pos + 1) /\ ioff i' = pos + 2 + byte_of bs (pos + 1) /\
+    exists i1, body (byte_of bs pos) (byte_of bs (pos + 1)) (pos + 2 + byte_of bs (pos + 1)) (mk_iter bs (pos + 2)) = Ok (d, i1))).
+Proof.
+  intros Hp H. unfold parse_descriptor_with, ibind in H.
+  destruct (next_bytes_nocopy 2 (mk_iter bs pos)) as [[r i1]| |] eqn:E; try discriminate.
+  apply next_two in E. destruct E as (H0 & H2 & -> & Et & El & _). rewrite Et, El in H.
+  split; [exact H0|]. split; [exact H2|].
+  destruct (byte_of bs (pos + 1) >? 0) eqn:Eg.
+  - unfold ioffset in H. cbn [ioff] in H.
+    destruct (body _ _ _ (mk_iter bs (pos + 2))) as [[d1 i2]| |] eqn:Eb; try discriminate.
+    unfold iseek, iret in H. inversion H; subst. cbn [ibs ioff].
+    split; [apply (Hp _ _ _ _ _ _ Eb)|]. right. split; [lia|]. split; [reflexivity|]. eexists; reflexivity.
+  - unfold iret in H. inversion H; subst. cbn [ibs ioff]. split; [reflexivity|]. left. split; [lia|]. auto.
+Qed.
+
+(* ---- the loop ---- *)
+
+Lemma descriptor_loop_spec body bs endp : body_pres body -> forall k pos ds i',
+  iloop_fuel k endp (parse_descriptor_with body) (mk_iter bs pos) = Ok (ds, i') ->
+  ibs i' = bs /\ tlv_parse desc_hdr body bs endp pos ds (ioff i').
+Proof.
+  intros Hp. induction k as [|k IH]; intros pos ds i' H; [discriminate|].
+  cbn [iloop_fuel] in H. unfold ibind at 1 in H. unfold ioffset at 1 in H. cbn [ioff] in H.
+  destruct (pos <? endp) eqn:El.
+  - unfold ibind at 1 in H.
+    destruct (parse_descriptor_with body (mk_iter bs pos)) as [[d i1]| |] eqn:Ed; try discriminate.
+    unfold ibind at 1 in H. destruct i1 as [bs1 off1].
+    destruct (parse_descriptor_with_spec body bs pos d _ Hp Ed) as (H0 & H2 & Hbs & Hcase). cbn [ibs ioff] in Hbs, Hcase. subst bs1.
+    destruct (iloop_fuel k endp (parse_descriptor_with body) (mk_iter bs off1)) as [[r i2]| |] eqn:Er; try discriminate.
+    unfold iret in H. inversion H; subst. destruct (IH _ _ _ Er) as [Hb Ht]. split; [exact Hb|].
+    destruct Hcase as [(Hz & -> & Ho)|(Hz & Ho & i3 & Eb)]; subst off1.
+    + apply tlv_parse_empty; try assumption; lia.
+    + eapply tlv_parse_body; try eassumption; lia.
+  - unfold iret in H. inversion H; subst. cbn [ibs ioff]. split; [reflexivity|]. apply tlv_parse_done. lia.
+Qed.
+
+(* the 12 bits of the loop length *)
+Lemma bits_of_split a b v : bits_of (a + b) v = bits_of a (v / 2 ^ Z.of_nat b) ++ bits_of b v.
+Proof.
+  induction a as [|a IH]; [reflexivity|]. cbn [Nat.add bits_of app]. rewrite IH. f_equal.
+  rewrite Z.div_pow2_bits by lia. f_equal. lia.
+Qed.
+
+Lemma Z_of_bits_app l1 l2 : Z_of_bits (l1 ++ l2) = Z_of_bits l1 * 2 ^ Z.of_nat (length l2) + Z_of_bits l2.
+Proof.
+  unfold Z_of_bits. rewrite Z_of_bits_acc_app. generalize (Z_of_bits_acc l1 0) as acc. intros acc.
+  rewrite <- (bits_of_Z_of_bits l2) at 1. rewrite Z_of_bits_acc_bits_of.
+  pose proof (Z_of_bits_range l2). fold (Z_of_bits l2). rewrite Z.mod_small by exact H. reflexivity.
+Qed.
+
+Lemma loop_length_bits r b0 b1 : length r = 2%nat -> byte_at r 0 = b0 -> byte_at r 1 = b1 ->
+  bitsf r 4 12 = (b0 mod 16) * 256 + b1 mod 256.
+Proof.
+  intros Hl E0 E1. destruct r as [|x [|y [|z r]]]; try discriminate. unfold byte_at in *. cbn [nth] in *. subst.
+  unfold bitsf, bits_of_bytes. cbn [flat_map]. rewrite app_nil_r.
+  change 8%nat with (4 + 4)%nat at 1. rewrite bits_of_split, <- app_assoc.
+  rewrite (field_skip 4) by lia. change (4 - 4)%nat with 0%nat.
+  unfold field. cbn [skipn]. rewrite firstn_all2 by (rewrite app_length, !bits_of_length; lia).
+  rewrite Z_of_bits_app, !Z_of_bits_of_mod, bits_of_length. reflexivity.
+Qed.
+
+(* parseDescriptors with any body parser that leaves the byte slice alone: on success the descriptors are the
+   results of the body parser on the TLV entries of the loop, each started at its own entry, and the iterator
+   is left where the entries end *)
+Theorem parse_descriptors_tlv body bs pos ds i' : body_pres body ->
+  parse_descriptors_with body (mk_iter bs pos) = Ok (ds, i') ->
+  0 <= pos /\ pos + 2 <= zlen bs /\ ibs i' = bs /\
+  tlv_parse desc_hdr body bs (pos + 2 + loop_length_at bs pos) (pos + 2) ds (ioff i').
+Proof.
+  intros Hp H. unfold parse_descriptors_with in H. unfold ibind at 1 in H.
+  destruct (next_bytes_nocopy 2 (mk_iter bs pos)) as [[r i1]| |] eqn:E; try discriminate.
+  apply next_two in E. destruct E as (H0 & H2 & -> & Et & El & Hr).
+  rewrite (loop_length_bits r _ _ Hr Et El) in H. fold (loop_length_at bs pos) in H.
+  split; [exact H0|]. split; [exact H2|].
+  destruct (loop_length_at bs pos >? 0) eqn:Eg.
+  - unfold ibind at 1 in H. unfold ioffset at 1 in H. cbn [ioff] in H. unfold iloop, ibind at 1, ioffset at 1 in H. cbn [ioff] in H.
+    apply (descriptor_loop_spec body bs _ Hp) in H. exact H.
+  - unfold iret in H. inversion H; subst. cbn [ibs ioff]. split; [reflexivity|]. apply tlv_parse_done. lia.
+Qed.
+
+(* the entries are a function of the bytes alone *)
+Lemma tlv_chain_det bs endp pos es fin : tlv_chain bs endp pos es fin ->
+  forall es' fin', tlv_chain bs endp pos es' fin' -> es' = es /\ fin' = fin.
+Proof.
+  induction 1 as [pos Hge|pos es fin Hlt H0 H2 _ IH]; intros es' fin' H'; inversion H'; subst; try lia.
+  - split; reflexivity.
+  - match goal with Hc : tlv_chain _ _ _ _ fin' |- _ => destruct (IH _ _ Hc) as [-> ->] end. split; reflexivity.
+Qed.
+
+(* the walk stops at the first entry boundary that is not before the declared end of the loop *)
+Lemma tlv_chain_fin bs endp pos es fin : tlv_chain bs endp pos es fin -> endp <= fin.
+Proof. induction 1; lia. Qed.
+
+Lemma byte_of_range bs p : bytes_ok bs -> 0 <= byte_of bs p < 256.
+Proof.
+  intros H. unfold byte_of. destruct (nth_in_or_default (Z.to_nat p) bs 0) as [Hin|Hd]; [|lia].
+  unfold bytes_ok in H. rewrite Forall_forall in H. apply H in Hin. exact Hin.
+Qed.
+
+(* tags and lengths returned = tags and lengths of the entries (for byte strings: every element in 0..255) *)
+Lemma tlv_parse_chain body bs endp pos ds fin : body_hdr body -> bytes_ok bs ->
+  tlv_parse desc_hdr body bs endp pos ds fin ->
+  exists es, tlv_chain bs endp pos es fin /\
+             map (fun d => (Descriptor_Tag d, Descriptor_Length d)) ds = map (fun e => (snd (fst e), snd e)) es.
+Proof.
+  intros Hh Hok. induction 1 as [pos Hge|pos ds fin Hlt H0 H2 Hz _ IH|pos d i' ds fin Hlt H0 H2 Hz Eb _ IH].
+  - exists []. split; [constructor; exact Hge|reflexivity].
+  - destruct IH as (es & Hc & Hm). exists ((pos, byte_of bs pos, byte_of bs (pos + 1)) :: es).
+    pose proof (byte_of_range bs (pos + 1) Hok) as Hr. assert (Ez : byte_of bs (pos + 1) = 0) by lia. split.
+    + constructor; try assumption. rewrite Ez. replace (pos + 2 + 0) with (pos + 2) by lia. exact Hc.
+    + cbn [map fst snd]. rewrite Hm. reflexivity.
+  - destruct IH as (es & Hc & Hm). destruct (Hh _ _ _ _ _ _ Eb) as [Et El].
+    exists ((pos, byte_of bs pos, byte_of bs (pos + 1)) :: es). split; [constructor; assumption|].
+    cbn [map fst snd]. rewrite Hm, Et, El. reflexivity.
+Qed.
+
+(* C14_tlv for the concrete parser *)
+Theorem parse_descriptors_framing bs pos ds i' : bytes_ok bs ->
+  parse_descriptors (mk_iter bs pos) = Ok (ds, i') ->
+  let endp := pos + 2 + loop_length_at bs pos in
+  ibs i' = bs /\
+  tlv_parse desc_hdr parse_descriptor_body bs endp (pos + 2) ds (ioff i') /\
+  exists es, tlv_chain bs endp (pos + 2) es (ioff i') /\
+             map (fun d => (Descriptor_Tag d, Descriptor_Length d)) ds = map (fun e => (snd (fst e), snd e)) es /\
+             endp <= ioff i'.
+Proof.
+  intros Hok H endp. destruct (parse_descriptors_tlv _ _ _ _ _ pres_parse_descriptor_body H) as (H0 & H2 & Hbs & Ht).
+  split; [exact Hbs|]. split; [exact Ht|].
+  destruct (tlv_parse_chain _ _ _ _ _ _ hdr_parse_descriptor_body Hok Ht) as (es & Hc & Hm).
+  exists es. split; [exact Hc|]. split; [exact Hm|]. apply (tlv_chain_fin _ _ _ _ _ Hc).
+Qed.
+
+(* when the entries tile the loop exactly (the last one ends at the declared end), parseDescriptors consumes
+   exactly 2 + loop length bytes *)
+Lemma tlv_chain_exact bs endp pos es fin : tlv_chain bs endp pos es fin ->
+  (es = [] /\ fin = pos) \/ (es <> [] /\ exists p t l, last es (0, 0, 0) = (p, t, l) /\ fin = p + 2 + l).
+Proof.
+  induction 1 as [pos Hge|pos es fin Hlt H0 H2 Hc IH]; [left; auto|right]. split; [discriminate|].
+  destruct IH as [[-> ->]|(Hne & p & t & l & El & Ef)].
+  - do 3 eexists. split; reflexivity.
+  - exists p, t, l. split; [|exact Ef]. destruct es; [contradiction|exact El].
+Qed.
